@@ -133,15 +133,16 @@ type Minted struct {
 	Refused   []Refused
 }
 
-// MintAt is MintLoose reporting the conflicts ordinal.  beneficiary nil = the proposer's own address.
-func (n *Net) MintAt(parentID thor.Bytes32, who int, com bool, minTime uint64, txs ...*tx.Transaction) (*Minted, error) {
+// MintAt is MintLoose reporting the conflicts ordinal.  benef is the packer's beneficiary option (nil: none, the packer
+// falls back to the endorsor / the staker-set beneficiary).
+func (n *Net) MintAt(parentID thor.Bytes32, who int, benef *thor.Address, com bool, minTime uint64, txs ...*tx.Transaction) (*Minted, error) {
 	g := n.God
 	parent, err := g.Repo.GetBlockSummary(parentID)
 	if err != nil {
 		return nil, fmt.Errorf("god does not know parent: %w", err)
 	}
 	acc := n.Devs[who]
-	p := packer.New(g.Repo, g.Stater, acc.Address, &acc.Address, n.FC, 0)
+	p := packer.New(g.Repo, g.Stater, acc.Address, benef, n.FC, 0)
 	if minTime == 0 {
 		minTime = parent.Header.Timestamp() + thor.BlockInterval()
 	}
